@@ -4,6 +4,7 @@ For each <out>/<i>/ (patch.diff, demo_test.go, meta.json): confirm it in a scrat
 (driver/confirm_seed.sh), apply it to /repo, run ./check PID --tier quick, undo it, and
 record everything under seeded/PID-<n>/."""
 import json, os, re, shutil, subprocess, sys
+os.environ["VERIF_SCRATCH_EVIDENCE"] = "1"   # evidence of runs against a modified /repo goes under .work/
 ROOT = os.path.dirname(os.path.dirname(os.path.abspath(__file__)))
 pid, out = sys.argv[1], sys.argv[2]
 existing = [int(d.split("-")[1]) for d in os.listdir(os.path.join(ROOT, "seeded")) if d.startswith(pid + "-")]
